@@ -178,7 +178,23 @@ pub fn build_session(c: &Case, corp: &corpus::Corpus) -> Vec<Cmd> {
                         classes.push(kind);
                     }
                 }
-                let mut text = if start == Pos::startpos() && e.pick(4) != 0 { "position startpos".to_string() } else { format!("position fen {}", start.to_fen()) };
+                let mut text = if start == Pos::startpos() && e.pick(4) != 0 {
+                    "position startpos".to_string()
+                } else if e.pick(4) == 0 {
+                    // the FEN in its 4-field form: counters default to 0 and 1
+                    classes.push("4-field-fen");
+                    let start4 = Pos::from_fen(&start.to_fen4()).unwrap();
+                    if let Some(g) = accept.as_mut() {
+                        let mut g4 = Game::new(start4.clone());
+                        for m in &g.moves {
+                            g4.play(*m);
+                        }
+                        *g = g4;
+                    }
+                    format!("position fen {}", start.to_fen4())
+                } else {
+                    format!("position fen {}", start.to_fen())
+                };
                 if !moves.is_empty() {
                     text.push_str(" moves ");
                     text.push_str(&moves.join(" "));
@@ -449,9 +465,9 @@ pub fn parse_position(text: &str) -> Option<Game> {
 }
 
 pub const LEVEL: &str = "exploration";
-pub const RULE: &str = "UCI sessions of 1..8 commands from {position startpos|fen F [moves ...], the previous position command again or extended by 1..3 more moves (as a GUI re-sends a growing game), ucinewgame, isready}; move lists are legal games (up to 60 plies, special-move-weighted so castling, e.p. and all promotion suffixes occur as strings) and, in ~1/3 of the position commands, one move is corrupted (pseudo-legal but leaves the king in check, opponent's move, move of a missing piece, promotion without suffix, suffix on a non-promotion, uppercase, 0000, O-O, e1h1, e2, e2e9, z9z9 - each verified by the oracle not to be legal there). Layer a (in-process session, hook H4): after EVERY command the session board == the model (last accepted position; startpos initially and after ucinewgame) in all components, its legal moves/check status == oracle, key == key of the oracle FEN, earlier positions of the accepted game remembered, and Err returned exactly for corrupted position commands. Layer b (real binary): after every position/ucinewgame command a 'go nodes 2000' probe's bestmove must be legal in the model position (probes whose move is also legal in the previous position are counted as weak). Non-trivial = session with a special move in a list, a corruption, or more than one command; distinct by session text.";
+pub const RULE: &str = "UCI sessions of 1..8 commands from {position startpos|fen F [moves ...] (F in 6-field or 4-field form), the previous position command again or extended by 1..3 more moves (as a GUI re-sends a growing game), ucinewgame, isready}; move lists are legal games (up to 60 plies, special-move-weighted so castling, e.p. and all promotion suffixes occur as strings) and, in ~1/3 of the position commands, one move is corrupted (pseudo-legal but leaves the king in check, opponent's move, move of a missing piece, promotion without suffix, suffix on a non-promotion, uppercase, 0000, O-O, e1h1, e2, e2e9, z9z9 - each verified by the oracle not to be legal there). Layer a (in-process session, hook H4): after EVERY command the session board == the model (last accepted position; startpos initially and after ucinewgame) in all components, its legal moves/check status == oracle, key == key of the oracle FEN, earlier positions of the accepted game remembered, and Err returned exactly for corrupted position commands. Layer b (real binary): after every position/ucinewgame command a 'go nodes 2000' probe's bestmove must be legal in the model position (probes whose move is also legal in the previous position are counted as weak). Non-trivial = session with a special move in a list, a corruption, or more than one command; distinct by session text.";
 pub const ASSUMPTIONS: &[&str] = &[
     "rules oracle + session model (last accepted position)",
-    "shapes whose meaning the statement leaves open (junk where 'moves' belongs, empty 'moves' tail, 4-field FEN) are not generated here; C15 sends them and asserts liveness only",
+    "shapes whose meaning the statement leaves open (junk where 'moves' belongs, empty 'moves' tail) are not generated here; C15 sends them and asserts liveness only",
     "hook H4's Session runs UCICommand::new + execute_command exactly as uci_loop does",
 ];
